@@ -55,22 +55,28 @@ def make_met(run, ns, p):
         kw["timestamps"] = values.SList(n, lambda i, f=f: sym.SStr(f(i.z())), name="timestamps")
     else:
         kw["timestamps"] = None
-    return ns["MetConfig"](**kw)
+    me = ns["MetConfig"](**kw)
+    me.__dict__["_pyvc_given"] = dict(kw)      # the values handed to the constructor: the specification speaks of these
+    return me
 
 
-# ---- specification (from the statement)
+def given(me):
+    return me.__dict__["_pyvc_given"]
+
+
+# ---- specification (from the statement, over the values GIVEN at construction)
 def spec_steps(me, p):
-    lists = [getattr(me, f) for f in FIELDS if p[f] == "list"]
+    lists = [given(me)[f] for f in FIELDS if p[f] == "list"]
     return lists[0].length if lists else Num(1)
 
 
 def spec_rejected(me, p):
-    lists = [getattr(me, f) for f in FIELDS if p[f] == "list"]
+    lists = [given(me)[f] for f in FIELDS if p[f] == "list"]
     r = SBool(p["ustar"] == "none" and p["z0"] == "none")
     for a, b in itertools.combinations(lists, 2):
         r = r | (a.length != b.length)
     if p["timestamps"] == "list":
-        r = r | (me.timestamps.length != spec_steps(me, p))
+        r = r | (given(me)["timestamps"].length != spec_steps(me, p))
     return r
 
 
@@ -201,7 +207,7 @@ def generate(ctx):
             run.props = PROPS | {"C13"}
             st = me.get_step(i)
             for f in FIELDS:
-                v = getattr(me, f)
+                v = given(me)[f]
                 if p[f] == "none":
                     run.oblige("field-" + f, SBool(st[f] is None), kind="post", replay=rp)
                 elif p[f] == "scalar":
@@ -211,12 +217,12 @@ def generate(ctx):
             if p["z0"] == "none":
                 run.oblige("z0-absent", SBool("z0" not in st), kind="post", replay=rp)
             else:
-                run.oblige("z0-present", SBool("z0" in st) & (st.get("z0", Num(0)) == me.z0), kind="post",
+                run.oblige("z0-present", SBool("z0" in st) & (st.get("z0", Num(0)) == given(me)["z0"]), kind="post",
                            replay=rp)
             if p["timestamps"] == "none":
                 run.oblige("timestamp-is-index", sym.num(st["timestamp"]) == i, kind="post", replay=rp)
             else:
-                run.oblige("timestamp-ith", st["timestamp"] == me.timestamps.elem(i), kind="post", replay=rp)
+                run.oblige("timestamp-ith", st["timestamp"] == given(me)["timestamps"].elem(i), kind="post", replay=rp)
             run.oblige("keys", SBool(set(st.keys()) == set(FIELDS) | {"timestamp"} |
                                      ({"z0"} if p["z0"] != "none" else set())), kind="post", replay=rp)
         ctx.explore("config_parser.MetConfig.get_step[%s]" % cfg, t_step, PROPS | {"C13"})
@@ -235,5 +241,5 @@ def generate(ctx):
         dom = values.Rec("domain", ref_lat=None, ref_lon=None)
         run.scope = "config_parser.BLDFMConfig.__post_init__"
         ns["BLDFMConfig"](domain=dom, towers=[], met=Met("met"))
-        run.oblige("validate-called-at-construction", SBool(len(called) == 1), kind="post")
+        run.oblige("validate-called-at-construction", SBool(len(called) >= 1), kind="post")
     ctx.explore("config_parser.BLDFMConfig.__post_init__", t_post_init, PROPS)
